@@ -21,3 +21,15 @@ impl Clone for Identifier {
     #[verifier::external_body]
     fn clone(&self) -> (r: Self) ensures r == *self { unimplemented!() }
 }
+
+#[verifier::external_body]
+pub struct WitnessName { _p: u8 }
+impl View for WitnessName { type V = Seq<char>; uninterp spec fn view(&self) -> Seq<char>; }
+impl WitnessName {
+    #[verifier::external_body]
+    pub fn shallow_clone(&self) -> (r: Self) ensures r == *self { unimplemented!() }
+}
+impl Clone for WitnessName {
+    #[verifier::external_body]
+    fn clone(&self) -> (r: Self) ensures r == *self { unimplemented!() }
+}
